@@ -60,7 +60,15 @@ def index_origin(fn, e, at):
 def index_def(fn, e, at):
     """identity of the definition that an index name refers to at this point"""
     if isinstance(e, ast.Name):
-        return reaching_def(fn, e.id, at)
+        d = reaching_def(fn, e.id, at)
+        # a plain copy (`indices = left_inlet`, e.g. the parameter of a helper written back in place) refers to what the copied name referred to
+        k = 0
+        while d is not None and isinstance(d.value, ast.Name) and k < 6:
+            d2 = reaching_def(fn, d.value.id, d)
+            if d2 is None:
+                break
+            d, k = d2, k + 1
+        return d
     return e
 
 
@@ -589,6 +597,23 @@ def rule_alignment(chk):
         raise AnalysisError('align_particles: expected one loop filling index_array')
     loop = loops[0]
     iv = loop.target.id
+    after_ = [s_ for s_ in fn.body if getattr(s_, 'lineno', 0) > loop.lineno]
+    real_v = next((compact(a_.value) for s_ in after_ for a_ in ast.walk(s_) if isinstance(a_, ast.Assign) and compact(a_.targets[0]) == 'self.num_real_particles' and isinstance(a_.value, ast.Name)), None)
+    ins_v = None
+    for c_ in ast.walk(loop):
+        if isinstance(c_, ast.Compare) and len(c_.ops) == 1 and isinstance(c_.ops[0], (ast.Eq, ast.NotEq)):
+            sides = [c_.left, c_.comparators[0]]
+            if any(isinstance(x, ast.Name) and x.id == iv for x in sides):
+                oth = [x for x in sides if isinstance(x, ast.Name) and x.id != iv]
+                if oth:
+                    ins_v = oth[0].id
+    move_v = None
+    for s_ in after_:
+        for i_ in ast.walk(s_):
+            if isinstance(i_, ast.If) and isinstance(i_.test, ast.Compare) and isinstance(i_.test.left, ast.Name) and isinstance(i_.test.comparators[0], ast.Constant) and i_.test.comparators[0].value == 0:
+                move_v = i_.test.left.id
+    if real_v is None or ins_v is None:
+        raise AnalysisError('align_particles: the insertion point / the real-particle count were not identified (%s, %s)' % (ins_v, real_v))
     chk.decide(compact(loop.iter) in ('range(num_particles)',), 'alignment-is-a-permutation', 'loop-covers-all-particles', node=loop, file=PA, func=who,
                detail_bad='the fill loop does not visit every particle', detail_ok='for %s in range(num_particles)' % iv)
     paths = []
@@ -645,12 +670,15 @@ def rule_alignment(chk):
         chk.decide(ok, 'alignment-is-a-permutation', 'path:%s' % label, node=node, file=PA, func=who,
                    detail_bad='on this path the stores %s do not fill slot %s with %s itself or with the value previously held by the slot that receives %s: the index array stops being a '
                               'permutation, so c_align_array duplicates one particle and drops another' % ([(e[1], e[2]) for e in stores], iv, iv, iv), detail_ok=why)
+        # the counters by their roles: the insertion point is the variable the loop index is compared with (and the slot that receives it when displaced); the number of real
+        # particles is whatever local is stored into self.num_real_particles after the loop (it may be the insertion point itself); the number of moves is the local that
+        # decides, after the loop, whether the properties are permuted at all
         if local:
-            chk.decide(incs.get('next_insert') == '1' and incs.get('num_real_particles') == '1' and (not other or incs.get('num_moves') == '1'), 'alignment-is-a-permutation',
-                       'counters:%s' % label, node=node, file=PA, func=who, detail_bad='a Local particle must advance next_insert and num_real_particles (and num_moves when displaced): %s' % incs,
+            chk.decide(incs.get(ins_v) == '1' and incs.get(real_v) == '1' and (not other or move_v is None or incs.get(move_v) == '1'), 'alignment-is-a-permutation',
+                       'counters:%s' % label, node=node, file=PA, func=who, detail_bad='a Local particle must advance the insertion point %s and the real-particle count %s (and the move count %s when displaced): %s' % (ins_v, real_v, move_v, incs),
                        detail_ok=str(sorted(incs.items())))
         else:
-            chk.decide('next_insert' not in incs and 'num_real_particles' not in incs, 'alignment-is-a-permutation', 'counters:%s' % label, node=node, file=PA, func=who,
+            chk.decide(ins_v not in incs and real_v not in incs, 'alignment-is-a-permutation', 'counters:%s' % label, node=node, file=PA, func=who,
                        detail_bad='a non-Local particle must not advance the insertion point', detail_ok='no counter moves')
     chk.floor('paths through the alignment fill loop', n, 3)
     post = [s for s in fn.body if getattr(s, 'lineno', 0) > loop.lineno]
@@ -817,6 +845,8 @@ def main(chk):
     c06.rule_append_offsets(chk, M.find_class(M.cy(PA), 'ParticleArray'))
     # a particle that crossed the outlet plane leaves the fluid whatever its index (rule shared with C06)
     c06.rule_removal_exits(chk, M.find_class(M.cy(PA), 'ParticleArray'))
+    # ... and carry every value of a multi-valued property to the slot of the new particle (sizes and offsets in units of values = stride x particles; rule shared with C06)
+    c06.rule_stride(chk, M.find_class(M.cy(PA), 'ParticleArray'))
     # `if not dest_array:` in extract_particles and `if ghost_pa:` in the updaters ask whether an array was *given*: that is what they mean only while a ParticleArray is always
     # true, i.e. while the class defines neither __len__ nor __bool__ (with __len__ an empty fluid / outlet array counts as "not given": the particles extracted for it go
     # into a throw-away clone)
